@@ -8,11 +8,16 @@ namespace C13Driver
 def showList (items : List String) : String :=
   ",".intercalate (toString items.length :: items)
 
+/-- `validHost` under the four constant library answers (ace, ip) = 00 01 10 11 -/
+def hostBits (nm : Bytes) : String :=
+  let b (a i : Bool) : String := if validHost ⟨fun _ => a, fun _ => i⟩ nm then "1" else "0"
+  b false false ++ b false true ++ b true false ++ b true true
+
 def showHello (h : Hello) : String :=
   "hello c=" ++ showList (h.ciphers.map toString) ++
   " e=" ++ showList (h.extView.map (fun e => toString e.1 ++ ":" ++ showBytes e.2)) ++
   " a=" ++ showList (h.alpn.map showBytes) ++
-  " s=" ++ showList (h.sniCandidates.map showBytes)
+  " s=" ++ showList (h.sniCandidates.map (fun c => showBytes c ++ ":" ++ hostBits c))
 
 def showRes : Res Hello → String
   | .incomplete => "incomplete"
@@ -34,6 +39,14 @@ def step (line : String) : String :=
   | ["parse", d, h] =>
     match flag? d, hexOr h with
     | some dtls, some b => showRes (parse dtls b)
+    | _, _ => "bad-op"
+  | ["vhost", h] =>
+    match hexOr h with
+    | some b => hostBits b
+    | none => "bad-op"
+  | ["starts", d, h] =>
+    match flag? d, hexOr h with
+    | some dtls, some b => (if startsLike dtls b then "1" else "0") ++ (if startsP dtls b then "1" else "0")
     | _, _ => "bad-op"
   | "feed" :: d :: segs =>
     match flag? d, allHex segs with
